@@ -48,7 +48,17 @@ def _init_worker(pid, seed, tier):
 def _run_one(case):
     try:
         r = _CHECK.run_case(case)
-    except Exception as e:  # harness failure, not a property verdict
+    except Exception as e:
+        tb = traceback.extract_tb(e.__traceback__)
+        lib = [fr for fr in tb if "/repo/cirkit/" in fr.filename]
+        if lib:
+            # the library itself raised on an input of the check's alphabet and no oracle anticipated it: this never
+            # happens on the unchanged tree, so it is reported as a violation (with the innermost library frame)
+            where = lib[-1].filename.split("/repo/cirkit/")[1] + ":" + lib[-1].name
+            return case, {"status": "violation", "nontrivial": False,
+                          "violations": [{"sig": {"kind": "uncaught-library-exception", "exc": type(e).__name__, "where": where},
+                                          "detail": traceback.format_exc()[-1500:], "case": case}]}
+        # harness failure, not a property verdict
         return case, {"status": "harness_error", "detail": f"{type(e).__name__}: {e}\n{traceback.format_exc()}"}
     return case, r
 
